@@ -327,6 +327,9 @@ public:
 
     void compute(int maxit = 10, Scalar tol_div_n = 1e-7)
     {
+        // The status describes this call only: a Success left by an earlier call must not survive
+        m_info = Eigen::NoConvergence;
+
         Scalar tolerance_L2 = tol_div_n * m_n;
         int BlockSize;
         int max_iter = std::min(m_n, maxit);
